@@ -201,6 +201,8 @@ class VC:
         else:
             neg_t = term(neg)
             r = self._sat(neg_t)
+        if r == z3.unknown:
+            r = self._validate_candidate(neg_t)
         ms = (time.time() - t0) * 1000
         model = None
         smt2 = None
@@ -210,9 +212,9 @@ class VC:
             self.solver.check()
             try:
                 m = self.solver.model()
-                model = {str(d): str(m[d]) for d in m.decls()}
+                model = {str(d): str(m[d])[:300] for d in m.decls()}
             except z3.Z3Exception:
-                model = {}
+                model = getattr(self, "_candidate", {})
             smt2 = self.solver.to_smt2()
             self.solver.pop()
         elif self.run.keep_smt2 > 0 and r == z3.unsat:
@@ -237,6 +239,28 @@ class VC:
         else:
             self.assume(f)
         return res == "unsat"
+
+    def _validate_candidate(self, neg_t):
+        """z3 answers `unknown (incomplete theory array)` when lambda arrays
+        occur although it has a candidate model.  The candidate is accepted as
+        a counter-model only if every assertion evaluates to true under it."""
+        self.solver.push()
+        self.solver.add(neg_t)
+        try:
+            if self.solver.check() != z3.unknown:
+                return self.solver.check()
+            try:
+                m = self.solver.model()
+            except z3.Z3Exception:
+                return z3.unknown
+            for a in self.solver.assertions():
+                v = m.eval(a, model_completion=True)
+                if not z3.is_true(v):
+                    return z3.unknown
+            self._candidate = {str(d): str(m[d])[:300] for d in m.decls()}
+            return z3.sat
+        finally:
+            self.solver.pop()
 
     def cover(self, label):
         self.run.covers[label] = self.run.covers.get(label, 0) + 1
